@@ -231,7 +231,14 @@ def rule_z2_z3(repo):
         adds = [c for st in it.ast.body for c in ast.walk(st) if isinstance(c, ast.Call) and call_attr(c) == 'add' and
                 is_name(c.func.value, s) and c.args and isinstance(c.args[0], ast.Name) and c.args[0].id in tn]
         plain = not any(isinstance(x, (ast.If, ast.Break, ast.Continue, ast.Try)) for st in it.ast.body for x in ast.walk(st))
-        if adds and plain and all(cfg.dominates(it, r) for r in cfg.return_nodes()):
+        # every return that can be reached after something was recorded (a call that is handed `assms`, a store into it) lies behind the
+        # loop; a return in front of every recording - giving up before anything is translated - has nothing to assert
+        writers = [n for n in cfg.nodes if n.ast is not None and n.kind in ('stmt', 'test') and any(
+            (isinstance(c, ast.Call) and any(is_name(a, 'assms') for a in c.args)) or
+            (isinstance(c, ast.Subscript) and is_name(c.value, 'assms') and isinstance(c.ctx, ast.Store))
+            for h in cfg.headers(n) for c in ast.walk(h))]
+        behind = all(r.id not in cfg.reach_from([b for w in writers for b, _l in w.succ], skip_nodes=[it]) for r in cfg.return_nodes())
+        if adds and plain and writers and behind:
             ok = True
     z2.add('%s :: solve_core :: assms-asserted' % Z3, ok,
            'for _, A in assms.items(): s.add(A) dominates the return' if ok else
@@ -618,6 +625,138 @@ def rule_s4(repo):
     need(n_true >= 2, 'solve_with_interval: fewer than two accepting answers found')
     return res
 
+def rule_z10(repo):
+    """What the translation hands to Z3 has to be a Z3 term at every node.  A Python number among the operands lets
+    Python carry out the operation before the solver sees it: int / int is a float (2 / 6 is not the exact 1 / 3), and
+    number == number is a Python truth value.  Likewise a function variable becomes a Z3 *declaration*, and == between two
+    declarations is Python's comparison of the declarations, not an equation.  (a) no branch of `convert.rec` returns the
+    Python value of a numeral (`dest_number()` outside a `z3.*Val(..)`), (b) the equation branch is reached only after a
+    test that the sides are not functions, with an exception otherwise."""
+    res = RuleResult('C06.Z10', 'every operand of the Z3 translation is a Z3 term: numerals become Z3 values, equations are not formed between function declarations', floor=2)
+    Z3W = 'prover/z3wrapper.py'
+    f = repo.func(Z3W, 'convert.<locals>.rec')
+    cfg = cfg_of(f.node)
+    p_ = f.params()[0]
+    bad = []
+    n_num = 0
+    for r in cfg.return_nodes():
+        v = r.ast.value
+        if v is None:
+            continue
+        for c in ast.walk(v):
+            if isinstance(c, ast.Call) and call_attr(c) == 'dest_number':
+                n_num += 1
+                wrapped = any(isinstance(w, ast.Call) and (call_name(w) or '').split('.')[-1] in ('IntVal', 'RealVal', 'Q', 'RatVal') and any(x is c for x in ast.walk(w))
+                              for w in ast.walk(v))
+                if not wrapped:
+                    bad.append(r)
+    # `n = t.dest_number(); return n`
+    flow = flow_of(f.node)
+    for r in cfg.return_nodes():
+        if isinstance(r.ast.value, ast.Name):
+            inl = flow.inline(r.ast.value)
+            if isinstance(inl, ast.Call) and call_attr(inl) == 'dest_number':
+                n_num += 1
+                bad.append(r)
+    need(n_num, 'convert.rec: the branch for numerals (dest_number) not found')
+    res.add('%s :: convert.rec :: numeral-is-a-Z3-value' % Z3W, not bad,
+            'numerals are returned as z3.IntVal / z3.RealVal' if not bad else
+            'line %d returns the Python value of a numeral: operations between two numerals are then carried out by Python - (2::real) / 6 becomes the '
+            'float 0.333.., which differs from the exact 1 / 3, and ~((2::real) / 6 = 1 / 3) is accepted' % bad[0].lineno, '%s:%d' % (Z3W, (bad[0] if bad else f.node).lineno))
+    eqs = [r for r in cfg.return_nodes() if (lambda cp: cp and cp[0] is ast.Eq and all(isinstance(x, ast.Call) and is_name(x.func, f.name) for x in cp[1:]))(
+        compare_parts(r.ast.value) if r.ast.value is not None else None)]
+    need(eqs, 'convert.rec: the equation branch (rec(..) == rec(..)) not found')
+
+    def not_fun(e, pol):
+        return not pol and isinstance(e, ast.Call) and call_attr(e) in ('is_fun',) and p_ in src(e.func.value, 60)
+    edges = cfg.establishing_edges(not_fun)
+    ok = bool(edges) and all(cfg.path_avoiding(r, skip_edges=edges) is None for r in eqs)
+    res.add('%s :: convert.rec :: no-equation-between-declarations' % Z3W, ok,
+            'the equation is formed only where the sides are not functions' if ok else
+            'line %d forms `%s` for sides of any type: for two function variables these are Z3 declarations, == is False in Python, and ~(f = g) is accepted' % (
+                eqs[0].lineno, src(eqs[0].ast.value, 40)), '%s:%d' % (Z3W, eqs[0].lineno))
+    return res
+
+
+def rule_z11(repo):
+    """Z3 knows a constant by its name and its sort.  `convert_type` sends two HOL types to one sort (nat and int to the
+    integers - read from the function), so a name that the goal uses at both types would become one constant, and the
+    side condition x >= 0 recorded for the natural number would bind the integer.  Before anything is translated,
+    solve_core therefore compares the types of the variables of one name and gives up when they differ."""
+    res = RuleResult('C06.Z11', 'a variable name used at two types is not translated to one Z3 constant', floor=1)
+    Z3W = 'prover/z3wrapper.py'
+    ct = repo.func(Z3W, 'convert_type')
+    # which HOL types share a sort
+    shared = []
+    for n in ast.walk(ct.node):
+        if isinstance(n, ast.If):
+            names = sorted({x.id for x in ast.walk(n.test) if isinstance(x, ast.Name) and x.id.endswith('Type')})
+            if len(names) >= 2:
+                shared.append(names)
+    if not shared:
+        res.add('%s :: convert_type :: sorts' % Z3W, True, 'no two HOL types share a Z3 sort', ct.loc, nontrivial=False)
+        return res
+    g = repo.func(Z3W, 'solve_core')
+    cfg = cfg_of(g.node)
+    tests = []
+    for t in cfg.test_nodes():
+        cp = compare_parts(t.ast)
+        if not cp or cp[0] not in (ast.NotEq, ast.Eq):
+            continue
+        txt = [src(cp[1], 120), src(cp[2], 120)]
+        if any(x.endswith('.T') or '.T)' in x or '.T,' in x for x in txt) and any('.name' in x for x in txt):
+            tests.append((t, cp[0]))
+    convs = [n for n in cfg.nodes if n.ast is not None and n.kind in ('stmt', 'test') and any(
+        isinstance(c, ast.Call) and is_name(c.func, 'convert') for h in cfg.headers(n) for c in ast.walk(h))]
+    need(convs, 'solve_core: calls of convert not found')
+    ok = False
+    for t, op in tests:
+        lab = 'true' if op is ast.NotEq else 'false'
+        away = [b for b, l in t.succ if l == lab]
+        # the differing side leaves without translating anything; the loop that makes the test stands in front of every translation
+        leaves = not any(c.id in cfg.reach_from(away) for c in convs)
+        before = all(cfg.path_avoiding(c, skip_nodes=[t]) is None or any(
+            h.kind == 'iter' and t.id in cfg.reach_from([b for b, l in h.succ if l == 'loop']) and cfg.path_avoiding(c, skip_nodes=[h]) is None for h in cfg.nodes)
+            for c in convs)
+        if leaves and before:
+            ok = True
+    res.add('%s :: solve_core :: one-type-per-name (%s share a sort)' % (Z3W, ' / '.join('+'.join(x) for x in shared)), ok,
+            'the types of the variables of one name are compared before the translation' if ok else
+            'nothing compares the types of two variables of one name: x::int and x::nat become one integer constant, the assumption x >= 0 of the natural '
+            'number holds for the integer too, and (x::int) >= 0 | (x::nat) > 5 is accepted', g.loc)
+    return res
+
+
+def rule_s5(repo):
+    """The SymPy translation reads - as the subtraction of real numbers.  On natural numbers m - n is cut off at zero (the
+    library's definition): the branch for subtraction is reached only after a test of the type, with an exception for nat."""
+    res = RuleResult('C06.S5', 'the SymPy translation does not read the subtraction of natural numbers as ordinary subtraction', floor=1)
+    f = repo.func(SYMPY, 'convert')
+    cfg = cfg_of(f.node)
+    p_ = f.params()[0]
+    subs = [r for r in cfg.return_nodes() if isinstance(r.ast.value, ast.BinOp) and isinstance(r.ast.value.op, ast.Sub) and
+            all(isinstance(x, ast.Call) and is_name(x.func, 'convert') for x in (r.ast.value.left, r.ast.value.right))]
+    need(subs, 'sympywrapper.convert: the branch for subtraction not found')
+
+    def typed(e, pol):
+        cp = compare_parts(e)
+        if not cp:
+            return False
+        txt = (src(cp[1], 60), src(cp[2], 60))
+        about = any(x.startswith(p_ + '.get_type()') or x.startswith(p_ + '.arg1.get_type()') or x.startswith(p_ + '.arg.get_type()') for x in txt)
+        if about and 'NatType' in txt:
+            return (cp[0] is ast.Eq and not pol) or (cp[0] is ast.NotEq and pol)
+        if about and 'RealType' in txt:
+            return (cp[0] is ast.Eq and pol) or (cp[0] is ast.NotEq and not pol)
+        return False
+    edges = cfg.establishing_edges(typed)
+    ok = bool(edges) and all(cfg.path_avoiding(r, skip_edges=edges) is None for r in subs)
+    res.add('%s :: convert :: subtraction-not-at-nat' % SYMPY, ok,
+            'subtraction is translated only where the type is not nat' if ok else
+            'line %d translates m - n whatever its type: (2::nat) - 3 is 0 in the library and -1 for SymPy, and the trusted step accepts ~((2::nat) - 3 = 0)' % subs[0].lineno,
+            '%s:%d' % (SYMPY, subs[0].lineno))
+    return res
+
 
 def rules(repo):
-    return [rule_z1(repo)] + rule_z2_z3(repo) + [rule_z4(repo), rule_s1(repo), rule_s2(repo), rule_s3(repo), rule_s4(repo), rule_z5(repo), rule_z6(repo), rule_z7(repo), rule_z8(repo), rule_z9(repo)]
+    return [rule_z1(repo)] + rule_z2_z3(repo) + [rule_z4(repo), rule_s1(repo), rule_s2(repo), rule_s3(repo), rule_s4(repo), rule_z5(repo), rule_z6(repo), rule_z7(repo), rule_z8(repo), rule_z9(repo), rule_z10(repo), rule_z11(repo), rule_s5(repo)]
